@@ -237,7 +237,7 @@ def build(ctx, name, sources, flags=(), cxx="g++", std="c++17", opt="-O1", defs=
 # TLC
 
 def _java(xmx="4g", deque=False):
-    cmd = ["java", "-XX:+UseParallelGC", "-Xss64m", "-Xmx" + xmx]
+    cmd = ["java", "-XX:+UseParallelGC", "-Xss1g", "-Xmx" + xmx]
     if deque:
         cmd.append("-Dtlc2.tool.queue.IStateQueue=StateDeque")
     cmd += ["-cp", TLA_CP, "tlc2.TLC"]
